@@ -147,7 +147,7 @@ def _sum_range(rng: ast.Call) -> ast.AST:
     if not core.match_template(step, ast.Constant(value=1)):
         return rng
 
-    if core.match_template(end, ast.Constant(value=0)):
+    if core.match_template(start, ast.Constant(value=0)):
         return _sum_int_squares_to(end)
 
     return ast.BinOp(left=_sum_int_squares_to(end), op=ast.Sub(), right=_sum_int_squares_to(start))
@@ -229,6 +229,8 @@ def simplify_math_iterators(source: str) -> str:
                 continue
             if node.func.id != "sum":
                 continue
+            if not core.match_template(_get_range_start_end(arg)[2], ast.Constant(value=1)):
+                continue  # Only the sum over consecutive integers has a closed form here
             yield node, _sum_range(arg)
 
         elif core.match_template(arg, basic_collection_template):
